@@ -7,6 +7,7 @@ import (
 	"runtime"
 	"strings"
 	"sync"
+	"sync/atomic"
 	"time"
 
 	"github.com/olive-io/bpmn/v2/pkg/tracing"
@@ -34,6 +35,13 @@ type c09Case struct {
 	Joiners []c09Joiner `json:"joiners"`
 	Hooks   float64     `json:"hooks"`
 	Procs   int         `json:"procs"`
+	// Cancel: the tracer's context is cancelled once the reference subscriber has seen CancelAt traces; the
+	// registered senders go on and finish: everything they send must still be delivered before the channels close
+	Cancel   bool `json:"cancel,omitempty"`
+	CancelAt int  `json:"cancel_at,omitempty"`
+	// Slow: permanent subscribers with a small buffer and a paced reader (keep the tracer's loop busy); they must
+	// observe exactly the reference sequence
+	Slow int `json:"slow,omitempty"`
 	// engine level
 	AST   *gen.Block       `json:"ast,omitempty"`
 	Vars  map[string]int64 `json:"vars,omitempty"`
@@ -60,6 +68,18 @@ func c09Cases(tier string, seed uint64) []fw.Case {
 		total := c.Senders * c.Sends
 		for j := 0; j < nj; j++ {
 			c.Joiners = append(c.Joiners, c09Joiner{After: rng.Intn(total), Read: rng.Intn(total / 2), Buf: bufs[rng.Intn(4)], Pace: rng.Intn(3)})
+		}
+		if i%3 == 1 {
+			c.Slow = 1 + rng.Intn(2)
+			c.Sends = 60 // paced readers: keep the run short
+			total = c.Senders * c.Sends
+			for j := range c.Joiners {
+				c.Joiners[j].After = rng.Intn(total)
+				c.Joiners[j].Read = rng.Intn(total / 2)
+			}
+		}
+		if i%2 == 1 {
+			c.Cancel, c.CancelAt = true, rng.Intn(total+1)
 		}
 		c.Name = fmt.Sprintf("tracer/%d", i)
 		cs = append(cs, fw.MkCase("tracer", &c))
@@ -110,6 +130,7 @@ func c09Tracer(c *c09Case, env *fw.Env, v *fw.V) {
 	var mu sync.Mutex
 	var ref []c09Rec
 	refSeen := make(chan int, total+16)
+	var refClosed atomic.Bool
 	go func() {
 		for t := range refCh {
 			mu.Lock()
@@ -118,7 +139,24 @@ func c09Tracer(c *c09Case, env *fw.Env, v *fw.V) {
 			mu.Unlock()
 			refSeen <- n
 		}
+		refClosed.Store(true)
 	}()
+	slow := make([][]c09Trace, c.Slow)
+	slowClosed := make([]atomic.Bool, c.Slow)
+	for k := 0; k < c.Slow; k++ {
+		ch := tr.SubscribeChannel(make(chan tracing.ITrace, k))
+		go func(k int) {
+			for t := range ch {
+				slow[k] = append(slow[k], t.(c09Trace))
+				if k == 0 {
+					time.Sleep(20 * time.Microsecond)
+				} else {
+					runtime.Gosched()
+				}
+			}
+			slowClosed[k].Store(true)
+		}(k)
+	}
 	// send call sequence numbers
 	sendCall := make([][]int64, c.Senders)
 	for i := range sendCall {
@@ -149,7 +187,10 @@ func c09Tracer(c *c09Case, env *fw.Env, v *fw.V) {
 		read:
 			for len(jr[j].a) < jn.Read {
 				select {
-				case t := <-ch:
+				case t, ok := <-ch:
+					if !ok {
+						break read // the tracer terminated and closed the channel
+					}
 					jr[j].a = append(jr[j].a, t.(c09Trace))
 					switch jn.Pace {
 					case 1:
@@ -165,9 +206,11 @@ func c09Tracer(c *c09Case, env *fw.Env, v *fw.V) {
 			jr[j].unsubbed = true
 			for {
 				select {
-				case t := <-ch:
-					jr[j].b = append(jr[j].b, t.(c09Trace))
-					continue
+				case t, ok := <-ch:
+					if ok {
+						jr[j].b = append(jr[j].b, t.(c09Trace))
+						continue
+					}
 				default:
 				}
 				break
@@ -185,9 +228,18 @@ func c09Tracer(c *c09Case, env *fw.Env, v *fw.V) {
 				}
 			}
 		}
+		cancelled := false
+		maybeCancel := func(n int) {
+			if c.Cancel && !cancelled && n >= c.CancelAt {
+				cancelled = true
+				cancel()
+			}
+		}
 		check(0)
+		maybeCancel(0)
 		for n := range refSeen {
 			check(n)
+			maybeCancel(n)
 			if n == total {
 				return
 			}
@@ -223,7 +275,11 @@ func c09Tracer(c *c09Case, env *fw.Env, v *fw.V) {
 	mu.Unlock()
 	cls := fmt.Sprintf("senders=%d-joiners=%d", min(c.Senders, 2), min(len(c.Joiners), 2))
 	if nref != total {
-		v.Violate("deadlock", cls, "all goroutines blocked but the reference subscriber received %d of %d traces; blocked: %v", nref, total, quiesce.Summary(q.Gs))
+		if len(quiesce.DriverIn(q.Gs, "tracer).Send")) == 0 {
+			v.Violate("dropped", cls+fmt.Sprintf("-cancelled=%v", c.Cancel), "every Send of the registered senders returned but the reference subscriber received only %d of %d traces (context cancelled after %d: %v)", nref, total, c.CancelAt, c.Cancel)
+		} else {
+			v.Violate("deadlock", cls, "all goroutines blocked but the reference subscriber received %d of %d traces; blocked: %v", nref, total, quiesce.Summary(q.Gs))
+		}
 		cancel()
 		return
 	}
@@ -309,7 +365,39 @@ func c09Tracer(c *c09Case, env *fw.Env, v *fw.V) {
 		v.Add("joiner-traces", len(r.a)+len(r.b))
 	}
 	v.Add("traces", total)
+	// permanent slow subscribers: exactly the reference sequence
 	cancel()
+	q = quiesce.Wait(env.Label, 20*time.Second, nil)
+	if !q.Quiescent {
+		v.Inconclusive("watchdog", "no quiescent point after cancelling the tracer")
+		return
+	}
+	select {
+	case <-tr.Done():
+	default:
+		v.Violate("not-terminated", cls, "context cancelled and every registered sender done, but the tracer has not terminated; blocked: %v", quiesce.Summary(q.Gs))
+		return
+	}
+	if !refClosed.Load() {
+		v.Violate("subscriber-not-closed", cls, "tracer terminated but the reference subscriber's channel was not closed")
+	}
+	for k := range slow {
+		if !slowClosed[k].Load() {
+			v.Violate("subscriber-not-closed", cls, "tracer terminated but permanent subscriber %d's channel was not closed", k)
+			continue
+		}
+		if len(slow[k]) != len(ref) {
+			v.Violate("subscribers-differ", cls, "permanent subscriber %d (buffer %d) received %d traces, the reference subscriber %d", k, k, len(slow[k]), len(ref))
+			continue
+		}
+		for i := range ref {
+			if slow[k][i] != ref[i].T {
+				v.Violate("subscribers-differ", cls, "permanent subscriber %d: position %d is %v, the reference subscriber saw %v", k, i, slow[k][i], ref[i].T)
+				break
+			}
+		}
+		v.Add("slow-subscriber-traces", len(slow[k]))
+	}
 }
 
 func c09Engine(c *c09Case, env *fw.Env, v *fw.V) {
@@ -352,7 +440,7 @@ func init() {
 			}
 			return v
 		},
-		Rule:        "tracer level: PRNG histories with 1..8 senders x 200 uniquely numbered traces, a permanent reference subscriber plus 0..3 joiners that subscribe at a PRNG point, read a PRNG number of traces (pacing none/yield/50us, buffer 0/1/10/1000) and unsubscribe; GOMAXPROCS 1/2/4/8; hooks in Send/broadcast/Subscribe/Unsubscribe; offline checks: reference sequence is a permutation respecting each sender's order, each joiner's reads and its buffer leftovers are contiguous blocks of the reference order in the right order, nothing sent after Subscribe returned is missed, nothing arrives after Unsubscribe returned, no deadlock at the quiescent point; engine level: generated programs run stepwise with two subscribers, causal grammar (flow trace before NewFlow of the flows it announces, visit before leave, termination last) and identical order for both subscribers; non-trivial = > 1 sender or >= 1 joiner (tracer) / any engine run; distinct = descriptor hash",
+		Rule:        "tracer level: PRNG histories with 1..8 senders x 200 uniquely numbered traces, a permanent reference subscriber, 0..2 permanent slow subscribers (buffer 0/1, paced readers; must see exactly the reference sequence), optional cancellation of the tracer's context at a PRNG point while the registered senders go on (everything they send must still be delivered, then the tracer terminates and closes every channel), plus 0..3 joiners that subscribe at a PRNG point, read a PRNG number of traces (pacing none/yield/50us, buffer 0/1/10/1000) and unsubscribe; GOMAXPROCS 1/2/4/8; hooks in Send/broadcast/Subscribe/Unsubscribe; offline checks: reference sequence is a permutation respecting each sender's order, each joiner's reads and its buffer leftovers are contiguous blocks of the reference order in the right order, nothing sent after Subscribe returned is missed, nothing arrives after Unsubscribe returned, no deadlock at the quiescent point; engine level: generated programs run stepwise with two subscribers, causal grammar (flow trace before NewFlow of the flows it announces, visit before leave, termination last) and identical order for both subscribers; non-trivial = > 1 sender or >= 1 joiner (tracer) / any engine run; distinct = descriptor hash",
 		Assumptions: []string{"subscribers honour the documented contract: they keep reading until they unsubscribe", "unsubscribing a channel twice is not exercised"},
 	})
 }
